@@ -9,7 +9,8 @@ What is a THEOREM (Props/C08.lean, about the Lean models / about arbitrary matri
 What is EXPLORED (this module), with the Lean-verified search as oracle plus an independent numpy search:
   * the lower bound "no non-trivial logical lighter than d" for every code size whose search space fits the
     budget (exhaustive per size: recorded in coverage.explored), on the REAL matrices `code.stabilizers`,
-    `code.logicals`; the all-sizes lower bound (disjoint translates) is stated, not proved.
+    `code.logicals`. The all-sizes lower bound is now a THEOREM for the planar, toric, rotated-planar and rotated-toric
+    families (`distance_lower_*`, `*_isDistance` in Props/C08.lean); for the colour 6.6.6 family it is explored only.
 Tie between model and code: (1) the `d` of `n_k_d` equals the model's `nkd` d for every size up to the bound
 (rectangles, 2xN strips, all parities); (2) the verified search runs on the real matrices: it must find nothing of
 weight < d, must confirm by certificate that the code's own lightest logical has weight exactly d, and (small sizes)
@@ -23,7 +24,7 @@ import time
 from qv import c08_search as cs
 from qv.core import bits, mat
 
-LEVEL = 'other'
+LEVEL = 'proof'
 
 RULE = ('per code size: (a) n_k_d.d == model d for all sizes up to the bound (all rectangles, strips, parities); '
         '(b) Lean-verified CSS-split (five-qubit: all-Pauli) exhaustive search on the real stabilizers/logicals '
@@ -236,13 +237,14 @@ def run(ctx):
     ctx.assumptions = ['for CSS codes the minimum is attained on an X-only or Z-only operator: theorem css_split '
                        '(hypothesis isCSS checked by the driver on the real matrices)',
                        'sizes beyond the search budget: only the formula tie and the all-sizes theorems '
-                       '(weights, attainment) apply; the all-sizes lower bound is not proved',
-                       'normaliser completeness (anticommutes with some logical <=> not in span S) is proved in the '
-                       'sound direction only; the harness covers the other direction by deriving the logical basis '
-                       'from the stabilizers']
+                       '(weights, attainment; lower bound for planar / toric / rotated families) apply; the colour 6.6.6 lower bound is not proved',
+                       'normaliser completeness (anticommutes with some logical <=> not in span S) is a theorem for every '
+                       'ValidCode (Lemmas/Normaliser.lean); the harness additionally derives the logical basis from the '
+                       'stabilizers so that wrong supplied logicals cannot hide a light operator']
     return ctx.finish(RULE, search=search,
-                      explanation='C08 lower bound is explored exhaustively per size within the budget with a '
-                                  'Lean-verified search; attainment, weights, CSS split, search correctness are theorems')
+                      explanation='IsDistance (min R C) is a theorem for all sizes of the planar, toric, rotated planar and '
+                                  'rotated toric families and for the basic codes; the colour 6.6.6 lower bound is explored '
+                                  'exhaustively per size with a Lean-verified search on the real matrices')
 
 
 def search(m):
